@@ -164,15 +164,22 @@ def format_oracle(ctx, sizes, partials, max_caps, kinds=None, bufsize=None):
             if len(data) > 120000:
                 continue
             wb, _ = safe_walk(kind, data)
-            for size in sizes:
+            variants = [{}]
+            if kname == "FLAC" and data[:3] == b"ID3":
+                variants.append({"deleteid3": True})      # the ID3v2 prefix is dropped by the same save
+            for size, kw in [(sz, kw) for sz in sizes for kw in variants]:
                 rng = random.Random(ctx.seed * 7 + len(sample) + size)
-                try:
+                def make(size=size, kw=kw):
+                    # (a fresh object per attempt: not every loaded object can be deep-copied, e.g. FLAC cue sheets)
                     o = kind.open(io.BytesIO(data))
-                    t = kind.ensure_tags(o)
-                    add_value(kind, o, size)
+                    kind.ensure_tags(o)
+                    add_value(kind, o, size + (len(data) if kw else 0))
+                    return o
+                try:
                     b = io.BytesIO(data)
-                    copy.deepcopy(o).save(b)
+                    make().save(b, **kw)
                 except Exception:
+                    ctx.count("format:skipped-unsaveable")
                     continue
                 after_ok = b.getvalue()
                 growth = len(after_ok) - len(data)
@@ -187,9 +194,9 @@ def format_oracle(ctx, sizes, partials, max_caps, kinds=None, bufsize=None):
                 for cap in caps:
                     for partial in partials:
                         c = Cap(data, cap, partial)
+                        o2 = make()
                         try:
-                            o2 = copy.deepcopy(o)
-                            o2.save(c)
+                            o2.save(c, **kw)
                             res = "ok"
                         except mutagen.MutagenError:
                             res = "MutagenError"
@@ -198,11 +205,11 @@ def format_oracle(ctx, sizes, partials, max_caps, kinds=None, bufsize=None):
                         out = c.getvalue()
                         ctx.oracle_cases += 1
                         ctx.count("format:" + kname + (":listed" if listed else ":remaining"))
-                        ctx.case((kname, sample, size, cap - len(data), partial),
+                        ctx.case((kname, sample, size, cap - len(data), partial, bool(kw)),
                                  {"kind": kname, "sample": sample, "growth": growth, "remaining_capacity": cap - len(data), "partial": partial,
                                   "result": res, "unchanged": out == data} if ctx.oracle_cases % 997 == 1 else None)
                         d = {"runner": "c19.format", "kind": kname, "sample": sample, "size": size, "remaining_capacity": cap - len(data),
-                             "growth": growth, "partial": partial, "observed": res}
+                             "growth": growth, "partial": partial, "observed": res, "save_kwargs": repr(kw)}
                         if c.enospc == 0:
                             continue      # the save did not hit the limit (e.g. it needed less space on this path)
                         if res != "MutagenError":
